@@ -38,7 +38,7 @@ SixAgree(lim) ==
   /\ Obs(ByRun(FALSE, lim)) = o  /\ Obs(ByRun(TRUE, lim)) = o
   /\ Obs(ByStep(FALSE, lim)) = o /\ Obs(ByStep(TRUE, lim)) = o
 
-Ref   == S!SRun(toks, S!SBoot, TokFuel)
+Ref   == S!SEval(toks, TokFuel)
 Below(ds, a) == IF Len(ds) >= a THEN SubSeq(ds, 1, Len(ds) - a) ELSE <<>>
 VarSeq(r) == LET names == S!VarNames(toks) IN [nm \in names |-> S!VarValue(toks, r, nm)]
 Kind(r) == IF r.skip THEN "skip" ELSE IF r.err = "none" THEN "done" ELSE IF r.err = "timeout" THEN "timeout" ELSE "fail"
